@@ -21,7 +21,8 @@ EXPLANATION = (
     "one commit point per iteration, success implies _finish_committed; (R6) acquire/release typestate at every "
     "lock_provider.acquire() site; (R4) write-once names, shared with C09.R1."
     ' Also: (R3b) every retry loop around MetadataManager.commit rebuilds both arguments inside the iteration; (R7/R8) the local lock keeps its shape (non-blocking flock, the lock file is never unlinked in flock mode); (R9) an ambiguous failure is never retried as a clean conflict (handler order incl. class hierarchy).'
-    ' (R10) nothing may raise out of commit() after the commit point (shared with C04.R2: a commit that raised is not reflected); (R11) success means committed: every normal exit of Transaction.commit() passed a commit-point call or is the empty-transaction return.')
+    ' (R10) nothing may raise out of commit() after the commit point (shared with C04.R2: a commit that raised is not reflected); (R11) success means committed: every normal exit of Transaction.commit() passed a commit-point call or is the empty-transaction return.'
+    ' (R12) who-may-delete census (shared with C09.R3): no unsanctioned deleter can remove files of an acknowledged commit; (R13) every handler an AmbiguousCommitError can flow into re-raises (an ambiguous commit is never retried).')
 NOT_DECIDED = ("that flock / the S3 CAS lock actually excludes; the final-state-equals-serial-order statement "
                "over interleavings; linearity of the surviving chain at run time")
 
